@@ -31,7 +31,7 @@ CHECKS = {
   ),
   "C12": dict(
     technique="stateful property-based testing (proptest): generated histories of (build, fast check with shared cache, edit a source, rebuild) compared step by step against cache-less runs and repeated runs",
-    text="Generated worlds of 1-2 registry packages (optionally one star re-exporting the other, several entrypoints, passing and failing), histories of 3-7 steps with edits toggling annotation / export / kind of one declaration. After every fast-check step: all-or-nothing per package (all public modules emitted and no entrypoint diagnostic, or none emitted and every entrypoint carries diagnostics); recorded dependencies equal those declared by the emitted text; cached (cold / warm / stale) output equals cache-less output on emitted set, text, dependencies, source maps and diagnostic placement; two runs identical. Exploration only.",
+    text="Generated worlds of 1-2 registry packages (optionally one star re-exporting the other, several entrypoints, passing and failing), histories of 3-7 steps with edits toggling annotation / export / kind of one declaration. After every fast-check step: all-or-nothing per package (all public modules emitted and no entrypoint diagnostic, or none emitted and every entrypoint carries diagnostics); recorded dependencies equal those declared by the emitted text; cached (cold / warm / stale) output equals cache-less output on emitted set, text, dependencies and source maps; two cache-less runs identical. Exploration only.",
     design_ref="DESIGN.md §4 C12",
     note="Trusted: the in-memory FastCheckCache of the harness (engine/src/fc.rs MemCache stores what it is given, keyed as requested).",
   ),
@@ -43,7 +43,7 @@ CHECKS = {
   ),
   "C05": dict(
     technique="property-based testing with log invariants (proptest): every Loader::load / ensure_cached call and every Locker call of a build over generated remote + registry worlds and lockfile images is checked against the expected-checksum table",
-    text="Generated worlds: a remote entry module importing remote modules on every load path (static, dynamic, text asset, type-only, redirecting URL, declaration file, http:, UTF-8 BOM, UTF-16 with charset) plus jsr: requirements and https://jsr.io/ URLs of a generated registry (with / without embedded module info and cache image); lockfile entries per URL and per version manifest absent / matching / mismatching; registry files optionally tampered. Oracles: each content-consuming call presents the known checksum; rejected content is never a module, is an integrity error, with exactly one cache-bypassing retry for non-registry URLs and none for registry files; checksummed redirect rejected; new remote modules and manifests recorded once with SHA-256 of the served bytes (or lockfileChecksum); existing entries never overwritten. Exploration only.",
+    text="Generated worlds: a remote entry module importing remote modules on every load path (static, dynamic, text asset, type-only, redirecting URL, declaration file, http:, UTF-8 BOM, UTF-16 with charset) plus jsr: requirements and https://jsr.io/ URLs of a generated registry (with / without embedded module info and cache image); lockfile entries per URL and per version manifest absent / matching / mismatching; registry files optionally tampered. Oracles: each content-consuming call presents the known checksum; rejected content is never a module, is an integrity error, with exactly one cache-bypassing retry for non-registry URLs and none for registry files; checksummed redirect rejected; new remote modules and manifests recorded with SHA-256 of the served bytes (or lockfileChecksum), never with two different values; existing entries never overwritten. Exploration only.",
     design_ref="DESIGN.md §4 C05",
     note="Trusted: the harness loader's checksum verification (LoaderChecksum::check_source) and call logs; sha2.",
   ),
